@@ -15,14 +15,14 @@ with open(os.path.join(HERE, "properties.jsonl")) as f:
 # property -> (technique, level text, level note)
 CHECKS = {
     "C01": (
-        "runtime contract on _join_meet_duality/contains with exact rational span/intersection oracle",
+        "runtime contract on _join_meet_duality, the public join/meet functions and methods, and contains, with exact rational span/intersection oracle",
         "Every call of the join/meet dispatcher (workload and library-internal) is judged position by position against the exact rational "
         "span/intersection (floating-point configurations: SVD reference with conditioning guard); lattices {-2..2}^3 and {-1,0,1}^4 are "
         "enumerated pairwise, other arities/kinds/collection shapes are seeded samples. Held = held on the judged executions listed in the evidence.",
         "numpy (einsum, svd) and Fraction arithmetic trusted; wrappers assumed behaviour-preserving; coordinates |x|<=1000, collection rank<=2",
     ),
     "C02": (
-        "runtime contract on the exception exits of _join_meet_duality with exact rational dependence/skewness oracle",
+        "runtime contract on the exception exits of _join_meet_duality and of the public join/meet functions and methods, with exact rational dependence/skewness oracle",
         "Every join/meet call with dependence checking is classified exactly (independent / dependent / skew per collection position) and the "
         "raise behaviour and the dependent_values mask are compared; all ordered lattice pairs incl. the zero vector are enumerated, other "
         "degenerate configurations are constructed with random multipliers. Held = held on the judged executions.",
@@ -48,7 +48,7 @@ CHECKS = {
         "LAPACK behaviour on singular inputs not judged; tolerance 1e-10 relative to the Hadamard/Frobenius scale",
     ),
     "C03": (
-        "twin execution monitor on every public geometric operation (rescaled representative re-executed and compared) + contract on ==",
+        "twin execution monitor on every public geometric operation, constructor and alternative constructor (rescaled representative re-executed and compared) + contract on ==",
         "Every top-level call of a geometric operation is re-executed with each tensor argument replaced by a rescaled representative (per element / "
         "per vertex factors, negative and complex ones) and the results compared with type-driven comparators; == is judged against exact multiples / "
         "clearly different lattice objects. Workload: operation catalogue over 2D/3D pools and the repo tests. Held = held on the judged executions.",
@@ -57,7 +57,7 @@ CHECKS = {
     "C04": (
         "shadow execution monitor: collection calls re-executed on single elements rebuilt from array slices; element-class contract on indexing/iteration",
         "Every top-level call with a collection operand is repeated on up to 12 single-element tuples and compared with the slice of the collection "
-        "result; integer indexing and iteration of every collection class are checked for class, values and attributes. Open findings F4, F26, F27, F28 recorded.",
+        "result; integer indexing and iteration of every collection class are checked for class, values and attributes. The collection result must be a collection class of the single results' class with index sets shifted by the collection axes. Open findings F4, F26, F27, F28, F32 recorded.",
         "collections of different shapes and argument types outside the declared signatures are not in the claimed domain",
     ),
     "C06": (
@@ -140,7 +140,7 @@ CHECKS = {
     "C18": (
         "runtime postconditions on Segment/Polygon/Polyhedron.intersect against exact rational intersection sets",
         "Every intersect call with exactly representable single operands is compared as a set (no duplicates, point objects) with the exact reference (segment-segment/line/plane, "
-        "boundary hits in 2D, pierce point in 3D, face hits of polyhedra). Open findings F16 (collinear segments sharing an endpoint) and F30 (skew segments raise).",
+        "boundary hits in 2D, pierce point in 3D, face hits of polyhedra). Open finding F16 (collinear segments sharing an endpoint); F30 (skew segments raised) was repaired in /repo.",
         "operands with infinitely many common points are judged only for duplicates / isolated hits",
     ),
 }
